@@ -124,6 +124,7 @@ func checkC14(c *Ctx) {
 	r.Rule("R10.2", "(shared with C10) WithSkip(n) obtains the child for n from the receiver's child index, sets n on it and returns it, storing nothing through the receiver (no child kept and re-skipped for another n)")
 	r.Rule("R14.5", "capture is unconditional: a capture site depends only on the admission test, the default-logger type switch, and switches that are constant true (handlerWriter.capturePC is only ever stored the constant true)")
 	r.Rule("R10.8", "(shared with C10) the package-level SetSkip/WithSkip delegate to their namesakes on the default logger, so SetSkip(n) changes the skip of the logger the package-level verbs use")
+	r.Rule("R09.2", "(shared with C09) the caller reported is that of THIS call: nothing on the print path keeps file, line or function names in package-level state (a memo keyed by anything coarser than the pc answers for another statement)")
 	r.Rule("R14.6", "the function reported is the function: the post-processing of the runtime's function name drops or abbreviates a leading package path only; every re-slice of a value derived from the name keeps the end of the string and no end-trimming or splitting function of package strings is applied to it")
 	r.Assume("runtime.Callers counts logical frames: inlined functions are counted and autogenerated method wrappers are elided (documented run-time semantics)")
 	for _, tags := range c.Configs([]string{"", "verbose"}, []string{"", "verbose", "hint", "verbose,hint"}) {
@@ -139,6 +140,7 @@ func checkC14(c *Ctx) {
 		c14Frames(c, p, m)
 		c14Flow(c, p, m)
 		c14FuncName(c, p)
+		c09Globals(c, p, m)
 		packageNamesakes(c, p, "R10.8")
 		freshChildren(c, p, m, "R14.3", func(n string) bool { return n == "WithSkip" })
 		c10WithSet(c, p, m)
